@@ -48,8 +48,14 @@ template<class S, class F> static void traverse(const S& s, int idiom, F f) {
     default: { auto b = s.begin(); auto e = s.end(); walk_by_value(b, e, f); break; }
   }
 }
+// weight REGIME of a segment: every offered weight is (integer) * g_unit with g_unit a power of two (1/1024 .. 2^20), so that
+// streams of weights all below 1 (rho = min(1/wt_max, k/cum) > 1), all above 10^6, or mixed stay exactly representable; the
+// cumulative weight is logged divided by it (c = cumWt / wtMax does not depend on the unit)
+static double g_unit = 1.0;
+static unsigned long g_segs = 0, g_seed0 = 0;
+static void next_unit() { static const double U[] = {1.0 / 64, 1.0, 1048576.0, 1.0 / 1024, 1.0, 1.0}; g_unit = U[(g_segs++ + g_seed0) % 6]; }
 template<class S> static Ev& scal(Ev& e, const S& s) {
-  double cw = s.get_cumulative_weight(); long long c = -1, res = 1000000;
+  double cw = s.get_cumulative_weight() / g_unit; long long c = -1, res = 1000000;
   if (std::fabs(cw) < 2e9) { c = std::llround(cw); double d = std::fabs(cw - (double)c) * 1e6; res = d > 1e6 ? 1000000 : std::llround(d); }
   double cc = s.get_c() * 1e4;
   e.i("n", (long long)s.get_n()).i("k", s.get_k()).i("cum", c).i("cumRes", res).i("c10k", std::fabs(cc) < 2e9 ? std::llround(cc) : -1).b("empty", s.is_empty());
@@ -65,7 +71,7 @@ template<class C> struct Seg {
   std::unique_ptr<SK> sk[NS]; std::vector<int> ids[NS]; bool restored[NS]; int prof[NS]; long eqw[NS]; long long total[NS];
   struct Blob { bool live = false; std::vector<uint8_t> bytes; std::vector<int> ids; long long total = 0; } blob[NB];
   int nextId = 1; long maxk;
-  Seg(vt::Rng& g_, long maxk_) : g(g_), maxk(maxk_) { for (int i = 0; i < NS; i++) { restored[i] = false; prof[i] = 0; eqw[i] = 1; total[i] = 0; } }
+  Seg(vt::Rng& g_, long maxk_) : g(g_), maxk(maxk_) { next_unit(); for (int i = 0; i < NS; i++) { restored[i] = false; prof[i] = 0; eqw[i] = 1; total[i] = 0; } }
   Ev& tag(Ev& e, int i) { if (restored[i]) e.b("restored", true); return e; }
   long drawK() { if (g.chance(15)) return g.range(1, 2); return std::min(g.range(1, maxk), g.range(1, maxk)); }
   void drop(int i) { if (sk[i]) { sk[i].reset(); ids[i].clear(); total[i] = 0; restored[i] = false; Ev("Drop").i("id", i).emit(); } }
@@ -104,11 +110,20 @@ template<class C> struct Seg {
   void opUpdateX(int i, int id, long w, bool rv) {
     T item = C::item(id);
     std::string threw;
-    try { if (rv) sk[i]->update(std::move(item), (double)w); else sk[i]->update(item, (double)w); }
+    try { if (rv) sk[i]->update(std::move(item), (double)w * g_unit); else sk[i]->update(item, (double)w * g_unit); }
     catch (std::exception& ex) { threw = clean(ex.what()); if (threw.empty()) threw = "exception"; }
     ids[i].push_back(id); total[i] += w;
     Ev e("Update"); e.i("id", i).i("x", id).i("w", w).b("rv", rv); tag(e, i);
     if (!threw.empty()) { e.str("threw", threw).emit(); drop(i); return; }
+    scal(e, *sk[i]).emit();
+  }
+  // an update with weight 0 is ignored: no observable may change
+  void opUpdateZero(int i) {
+    std::string threw; bool rv = g.chance(40); T item = C::item(2000000 + nextId);
+    try { if (rv) sk[i]->update(std::move(item), 0.0); else sk[i]->update(item, 0.0); }
+    catch (std::exception& ex) { threw = clean(ex.what()); if (threw.empty()) threw = "exception"; }
+    Ev e("UpdateZero"); e.i("id", i).b("rv", rv); tag(e, i);
+    if (!threw.empty()) { e.str("threw", threw).emit(); return; }
     scal(e, *sk[i]).emit();
   }
   void opUpdateInvalid(int i) {
@@ -222,7 +237,7 @@ template<class C> struct Seg {
       if (op < upd) { if (canUpdate(i) && total[i] < CAP) opUpdate(i, drawW(i), g.chance(40)); else if (g.chance(50)) opReset(i); else opGetResult(i); }
       else if (op < upd + 8) opGetResult(i);
       else if (op < upd + 14) opIterate(i);
-      else if (op < upd + 15) opUpdateInvalid(i);
+      else if (op < upd + 15) { if (g.chance(50)) opUpdateInvalid(i); else { opUpdateZero(i); if (g.chance(30)) { int b = (int)g.below(NB); opSer(i, b); if (blob[b].live) opDeser(b, (int)g.below(NS)); } } }
       else if (op < upd + 16) { if (g.chance(40)) opNewInvalid(); else if (g.chance(30)) opReset(i); }
       else if (op < upd + 18) { int j = (int)g.below(NS); if (j != i) opCopy(i, j); }
       else if (op < upd + 20) { int j = (int)g.below(NS); opNew(j, drawK()); }
@@ -245,7 +260,7 @@ template<class C> struct Seg {
       if (state == 1) opUpdate(0, 5, false);
       if (state == 2) { for (int t = 0; t < 7; t++) opUpdate(0, 1 + t % 3, false); opGetResult(0); opReset(0); }
       opGetResult(0); opIterate(0);
-      opSer(0, 0); if (!blob[0].live) continue;
+      opUpdateZero(0); opSer(0, 0); if (!blob[0].live) continue;
       opDeser(0, 1, 0); opDeser(0, 2, 1);
       for (int j = 1; j <= 2; j++) if (sk[j]) { opGetResult(j); opIterate(j); }
       for (int t = 0; t < (int)k + 6; t++) {
@@ -398,7 +413,7 @@ int main(int argc, char** argv) {
   vt::open_out(vt::arg(argc, argv, "--out", "/dev/stdout"));
   vt::Rng g0(seed); g0.next(); vt::Rng g(g0.next() >> 1);   // consecutive seeds of vt::Rng are shifted copies of one stream: decorrelate
   random_utils::override_seed(seed);
-  long segno = 0;
+  long segno = 0; g_seed0 = (unsigned long)seed;
   if (directed) { Ev("Begin").i("seg", segno++).str("type", "i64").str("kind", "directed-empty-merge").emit(); Seg<ConvI> s(g, maxk); s.directedEmptyMerge(); }
   if (vt::argl(argc, argv, "--edges", 1)) {
     { Ev("Begin").i("seg", segno++).str("type", "i64").str("kind", "directed-restore-edges").emit(); Seg<ConvI> s(g, maxk); s.directedRestoreEdges(); }
@@ -422,6 +437,7 @@ int main(int argc, char** argv) {
   }
   if (stats > 0) {
     Ev("Begin").i("seg", segno++).str("type", "i64").str("kind", "stat").emit();
+    g_unit = 1.0;
     for (long j = 0; j < stats; j++) stat_event(g, seed, (int)j, j % 2 == 1);
   }
   vt::close_out();
